@@ -433,6 +433,8 @@ impl DatabaseHandle {
             let mut db = self.inner.lock().unwrap();
             func(&mut db)
         };
+        #[cfg(dnp3_verif)]
+        self.inner.lock().unwrap().inner.verif_audit("transaction");
         self.notify.notify_one();
         ret
     }
@@ -459,10 +461,18 @@ impl DatabaseHandle {
     pub(crate) async fn clear_written_events(&mut self, app: &mut dyn OutstationApplication) {
         app.begin_confirm();
         let state = self.inner.lock().unwrap().inner.clear_written_events(app);
+        #[cfg(dnp3_verif)]
+        self.inner
+            .lock()
+            .unwrap()
+            .inner
+            .verif_audit("clear_written");
         app.end_confirm(state).get().await;
     }
 
     pub(crate) fn get_events_info(&self) -> EventsInfo {
+        #[cfg(dnp3_verif)]
+        self.inner.lock().unwrap().inner.verif_audit("events_info");
         let guard = self.inner.lock().unwrap();
 
         EventsInfo {
@@ -486,6 +496,12 @@ impl DatabaseHandle {
     }
 
     pub(crate) fn write_response_headers(&mut self, cursor: &mut WriteCursor) -> ResponseInfo {
+        #[cfg(dnp3_verif)]
+        self.inner
+            .lock()
+            .unwrap()
+            .inner
+            .verif_audit("write_response");
         self.inner
             .lock()
             .unwrap()
@@ -501,6 +517,8 @@ impl DatabaseHandle {
         let mut guard = self.inner.lock().unwrap();
         guard.inner.reset();
         let count = guard.inner.select_event_classes(classes);
+        #[cfg(dnp3_verif)]
+        guard.inner.verif_audit("write_unsolicited");
         if count == 0 {
             return 0;
         }
